@@ -78,7 +78,7 @@ type verifProfile struct {
 func verifPayload(symbolic bool) Object {
 	var s String
 	if symbolic {
-		s = String(verifrt.Bytes("payload", 2))
+		s = String(verifrt.Bytes("payload", 1+verifrt.Tier()))
 	} else {
 		s = String("a(b")
 	}
@@ -162,8 +162,15 @@ func verifFilters() (fs []Filter, symbolicOK bool, rows int) {
 
 // verifProduce runs a solver-chosen write program and returns the document.
 func verifProduce(p verifProfile) *verifDoc {
+	verifrt.Unwind(4000)
 	doc := &verifDoc{}
-	doc.version = verifVersions[len(verifVersions)-1-verifrt.Choice("version", p.versions)]
+	if p.versions >= len(verifVersions) && verifrt.Tier() == 0 {
+		// quick tier: one version per behaviour class (no ID; LZW only;
+		// xref table + RC4; xref/object streams; PDF 2.0)
+		doc.version = []Version{V2_0, V1_5, V1_4, V1_2, V1_0}[verifrt.Choice("version", 5)]
+	} else {
+		doc.version = verifVersions[len(verifVersions)-1-verifrt.Choice("version", p.versions)]
+	}
 	doc.human = verifrt.Choice("human", 2) == 1
 	doc.seekable = verifrt.Choice("seekable", 2) == 1
 	doc.id = [][]byte{[]byte("0123456789abcdef"), []byte("fedcba9876543210")}
@@ -194,10 +201,28 @@ func verifProduce(p verifProfile) *verifDoc {
 		if p.streams {
 			kinds = 4
 		}
-		switch verifrt.Choice("op", kinds) {
+		// only the last step (every step in the thorough tier) draws from the
+		// full menu; earlier steps set the scene with a reduced one
+		rich := step == p.ops-1 || verifrt.Tier() > 0
+		var op int
+		if rich {
+			op = verifrt.Choice("op", kinds)
+		} else {
+			// reduced menu {Put, WriteCompressed}
+			op = 0
+			if p.compressed && verifrt.Choice("preop", 2) == 1 {
+				op = 2
+			}
+		}
+		switch op {
 		case 0: // Put
 			ref := w.Alloc()
-			obj := verifPayload(p.symbolic)
+			var obj Object
+			if rich {
+				obj = verifPayload(p.symbolic)
+			} else {
+				obj = Dict{"P": String("pre")}
+			}
 			err := w.Put(ref, obj)
 			verifrt.Assert(err == nil, "Put succeeds")
 			doc.objs = append(doc.objs, verifExpObj{ref, obj})
@@ -205,7 +230,10 @@ func verifProduce(p verifProfile) *verifDoc {
 			doc.unwritten = append(doc.unwritten, w.Alloc())
 		case 2: // object stream
 			r1, r2 := w.Alloc(), w.Alloc()
-			o1, o2 := verifPayload(p.symbolic), Object(Dict{"X": Integer(1)})
+			o1, o2 := Object(String("pre")), Object(Dict{"X": Integer(1)})
+			if rich {
+				o1 = verifPayload(p.symbolic)
+			}
 			err := w.WriteCompressed([]Reference{r1, r2}, o1, o2)
 			verifrt.Assert(err == nil, "WriteCompressed succeeds")
 			doc.objs = append(doc.objs, verifExpObj{r1, o1}, verifExpObj{r2, o2})
